@@ -200,7 +200,8 @@ def shift_witness(c):
     loc = getattr(c, "locals", None)
     if loc is not None and "shift" in loc:
         return loc["shift"].obj.elems
-    return z3.FreshConst(z3.ArraySort(z3.IntSort(), z3.RealSort()), "shift")
+    # one witness per returned function (the caller's own postconditions may restate the clause about the same result)
+    return c.st.ghost.setdefault(("c01_shift", c.result_value.id), z3.FreshConst(z3.ArraySort(z3.IntSort(), z3.RealSort()), "shift"))
 
 
 class _Normalize(Contract):
@@ -531,3 +532,395 @@ class PreprocessNonLinear(_Preprocess):
 
     variant = "nonlinear"
     params = dict(PP_PARAMS, function=TObj(MDOF, schema_key=MDOF + "#c01"))
+
+
+@register
+class PreprocessLinear(_Preprocess):
+    """An MDOLinearFunction with dense coefficients: in normalised coordinates without rounding it is replaced by
+    g = function.normalize(design_space) (contract NormalizeDense, restated here about g); otherwise it is left untouched."""
+
+    variant = "linear"
+    linear = True
+    numpy = "precise"
+    frame_arrays = True
+    params = dict(PP_PARAMS, function=TObj(LIN, schema_key=LIN + "#dense"))
+    modifies = ("function",)  # `last_eval` / `dim` are written by function.evaluate(shift) inside normalize
+
+    def requires(self, c):
+        f = c.old.function
+        ds = c.old.self.design_space
+        return ds_wf(ds) + [("offset-length", ln(f._value_at_zero) == ln(f._coefficients, 0)),
+                            ("defined-over-the-space", ln(f._coefficients, 1) == ds.dimension)]
+
+    def normalized_function(self, c):
+        fun = raw(c.result, "function")
+        if isinstance(fun, Ref) and fun.id not in c._old_heap and isinstance(c._new_heap.get(fun.id), PyObj) and c._new_heap[fun.id].cls == LIN:
+            return fun
+        return None
+
+    def ensures(self, c):
+        out = super().ensures(c)
+        if len(out) == 1:
+            return out
+        g = self.normalized_function(c)
+        if g is not None:
+            inner = C.Ctx(c.st, c._old_heap, c._new_heap, {"self": c.arg("function"), "input_space": raw(c.old.self, "design_space")}, result=g)
+            out += [(f"normalized-function:{label}", f) for label, f in NormalizeDense().ensures(inner)]
+        else:
+            f0, f1 = c.old.function, c.new.function
+            i, j = z3.Int("i!pl"), z3.Int("j!pl")
+            A0, A1 = f0._coefficients, f1._coefficients
+            m, n = ln(A0, 0), ln(A0, 1)
+            inner = C.Ctx(c.st, c._old_heap, c._new_heap, {"self": c.arg("function")}, result=None)
+            out += [(f"function-untouched:{label}", f) for label, f in NormalizeDense()._kept(inner)]
+            out += [
+                ("function-untouched:coefficients", z3.And(ln(A1, 0) == m, ln(A1, 1) == n, fa([i, j], z3.Implies(z3.And(0 <= i, i < m, 0 <= j, j < n), el(A1, i, j) == el(A0, i, j)), el(A1, i, j)))),
+                ("function-untouched:dim", f1.dim == f0.dim),
+                ("function-untouched:last-eval", f1.last_eval == f0.last_eval),
+            ]
+        return out
+
+
+# ============================================================================ EvaluationProblem.preprocess_functions
+# Functions are opaque identities here (Val); `pp(f, normalized, use_database, round_ints, sparse, store_jacobian)` NAMES the function that
+# `_preprocess_function` returns for f and these flags (its meaning is what the two verified variants above establish).
+FUNCS = "gemseo.core.mdo_functions.collections.functions.Functions"
+VAR = TRec("C01Variable", {"type": TNd})
+BOOL = z3.BoolSort()
+pp = z3.Function("c01_preprocessed", ValS, BOOL, BOOL, BOOL, BOOL, BOOL, ValS)
+ftype_of = z3.Function("c01_f_type", ValS, ValS)
+authorized = z3.Function("c01_authorized_type", ValS, ValS, BOOL)
+# the terms the opaque numpy layer (pyvc/gmodels.py) builds for `np_any(variable_type == DesignVariableType.INTEGER)` and its truth value
+_np_eq = z3.Function("np_cmp_Eq_2", ValS, ValS, ValS)
+_np_any = z3.Function("np_numpy_any_1", ValS, ValS)
+from pyvc.values import val_of_str  # noqa: E402
+
+
+def has_integer_component(type_array):
+    """Some component of the variable is of integer type: bool(numpy.any(variable.type == "integer"))."""
+    return G.np_truth(_np_any(_np_eq(type_array, val_of_str(str_lit("integer")))))
+
+
+class OwnerTuple(TObj):
+    """Schema field holding the tuple of the objects held by other (already created) fields of the same object."""
+
+    def __init__(self, *fields):
+        self.fields_, self.cls, self.schema_key = fields, None, None
+        self.name = f"OwnerTuple[{','.join(fields)}]"
+
+    def fresh_in(self, st, hint, owner):
+        return tuple(st.heap[owner.id].fields[f] for f in self.fields_)
+
+
+class ConstTuple(TObj):
+    """Schema field holding a concrete tuple of Python values."""
+
+    def __init__(self, *values):
+        self.values, self.cls, self.schema_key = values, None, None
+        self.name = f"ConstTuple[{values!r}]"
+
+    def fresh_in(self, st, hint, owner):
+        return tuple(self.values)
+
+
+schema(FUNCS + "#c01", {"_functions": TList(TVal), "evaluate_jacobian": TBool, "ghost_authorized_types": TVal})
+schema(DS + "#c01vt", {"_variables": TDict(TStr, VAR, ordered=True)})
+COLL = TObj(FUNCS, schema_key=FUNCS + "#c01")
+_PPF_COMMON = {
+    "_functions_are_preprocessed": TBool,
+    "design_space": TObj(DS, schema_key=DS + "#c01vt"),
+    "differentiation_step": TReal,
+    "_EvaluationProblem__observables": COLL,
+    "_EvaluationProblem__new_iter_observables": COLL,
+}
+# EvaluationProblem: [observables, new_iter_observables], no named function
+schema(EP + "#ppf2", dict(_PPF_COMMON, _sequence_of_functions=OwnerTuple("_EvaluationProblem__observables", "_EvaluationProblem__new_iter_observables"),
+                          _function_names=ConstTuple()))
+# OptimizationProblem: [constraints, observables, new_iter_observables], named function `_objective`
+schema(EP + "#ppf3", dict(_PPF_COMMON, ghost_constraints=COLL, _objective=TVal,
+                          _sequence_of_functions=OwnerTuple("ghost_constraints", "_EvaluationProblem__observables", "_EvaluationProblem__new_iter_observables"),
+                          _function_names=ConstTuple("_objective")))
+
+
+@register
+class PreprocessSummary(Contract):
+    targets = (EP + "._preprocess_function",)
+    prop = ("C01",)
+    params = dict(PP_PARAMS, function=TVal)
+    returns = TVal
+    trusted = True
+    description = ("abstract summary used at the call sites in preprocess_functions (functions are opaque identities there): NAMES the result "
+                   "pp(function, flags) and keeps the function type (ProblemFunction.__init__ passes f_type=function.f_type); the concrete content "
+                   "of the result is what the verified variants @nonlinear / @linear of this same function establish")
+
+    def ensures(self, c):
+        o = c.old
+        return [("named", c.result == pp(o.function, zb(o.is_function_input_normalized), zb(o.use_database), zb(o.round_ints), zb(o.support_sparse_jacobian),
+                                       zb(o.store_jacobian))),
+                ("function-type-kept", ftype_of(c.result) == ftype_of(o.function))]
+
+
+@register
+class CheckFunctionType(Contract):
+    targets = (FUNCS + ".__check_function_type",)
+    prop = ("C01",)
+    self_schema = FUNCS + "#c01"
+    params = {"function": TVal}
+    trusted = True
+    description = "assumed: raises ValueError iff the type of the function is not one of those the collection authorizes (no effect on the state)"
+    raises = {"ValueError": lambda c: z3.Not(authorized(c.old.self.ghost_authorized_types, ftype_of(c.old.function)))}
+
+
+@register
+class ProblemCheck(Contract):
+    targets = (EP + ".check",)
+    prop = ("C01",)
+    modifies = ("self",)
+    trusted = True
+    description = ("assumed: validation of the design space and of the differentiation method (may raise ValueError; may only rewrite "
+                   "differentiation_step)")
+    raises = {"ValueError": None}
+    raises_exact = False
+
+    def ensures(self, c):
+        s0, s1 = c.old.self, c.new.self
+        out = [("preprocessed-flag-kept", s1._functions_are_preprocessed == s0._functions_are_preprocessed)]
+        if "_objective" in s0.obj.fields:
+            out.append(("objective-kept", s1._objective == s0._objective))
+        return out
+
+    def raise_ensures(self, c, exc):
+        return self.ensures(c)
+
+
+def round_eff_spec(c):
+    """The rounding option is kept iff SOME design variable is of integer type."""
+    V = c.old.self.design_space._variables
+    i = z3.Int("i!iv")
+    some_integer = z3.Exists([i], z3.And(0 <= i, i < V.n, has_integer_component(VAR.accessor("type")(V.vals[V.keys[i]]))))
+    return z3.And(zb(c.old.round_ints), some_integer)
+
+
+def collections_of(c):
+    """[(entry view, exit view, normalized?)] for the collections of `_sequence_of_functions`, in order."""
+    seq = raw(c.old.self, "_sequence_of_functions")
+    new_iter = raw(c.old.self, "_EvaluationProblem__new_iter_observables")
+    norm = zb(c.old.is_function_input_normalized)
+    return [(C.View(c._old_heap, r, c.st), C.View(c._new_heap, r, c.st), z3.BoolVal(False) if r.id == new_iter.id else norm) for r in seq]
+
+
+def pp_flags(c, norm):
+    o = c.old
+    return (norm, zb(o.use_database), round_eff_spec(c), zb(o.support_sparse_jacobian), zb(o.store_jacobian))
+
+
+def _inner_inv(c, k):
+    cur = c.locals["functions"]
+    old = C.View(c._old_heap, cur.ref, c.st)
+    L, L0 = cur._functions, old._functions
+    j = z3.Int("j!li")
+    normk = zb(c.locals["is_function_input_normalized_"])
+    return [
+        ("length-kept", L.n == L0.n),
+        ("replaced", fa([j], z3.Implies(z3.And(0 <= j, j < k), L.elems[j] == pp(L0.elems[j], *pp_flags(c, normk))), L.elems[j])),
+        ("remaining", fa([j], z3.Implies(z3.And(k <= j, j < L0.n), L.elems[j] == L0.elems[j]), L.elems[j])),
+    ]
+
+
+class _PreprocessFunctions(Contract):
+    targets = (EP + ".preprocess_functions",)
+    prop = ("C01",)
+    c01 = True
+    params = {"is_function_input_normalized": TBool, "use_database": TBool, "round_ints": TBool, "eval_obs_jac": TBool,
+              "support_sparse_jacobian": TBool, "store_jacobian": TBool}
+    raises = {"ValueError": None}  # from self.check() (design space / differentiation method validation)
+    loops = {1: LoopSpec(anchor="enumerate(functions)", inv=_inner_inv, modifies=("functions._functions",))}
+
+    def requires(self, c):
+        j = z3.Int("j!au")
+        out = []
+        for n, (C0, _, _) in enumerate(collections_of(c)):
+            L = C0._functions
+            # class invariant of the collections: every function is of an authorized type (checked by insert / __setitem__)
+            out.append((f"collection{n}:authorized-types", fa([j], z3.Implies(z3.And(0 <= j, j < L.n), authorized(C0.ghost_authorized_types, ftype_of(L.elems[j]))), L.elems[j])))
+        return out
+
+    def _replaced(self, c):
+        j = z3.Int("j!pf")
+        out = []
+        for n, (C0, C1, norm) in enumerate(collections_of(c)):
+            L0, L1 = C0._functions, C1._functions
+            out += [(f"collection{n}:same-length", L1.n == L0.n),
+                    (f"collection{n}:every-function-preprocessed", fa([j], z3.Implies(z3.And(0 <= j, j < L0.n), L1.elems[j] == pp(L0.elems[j], *pp_flags(c, norm))), L1.elems[j]))]
+        if "_objective" in c.old.self.obj.fields:
+            out.append(("named-function-preprocessed", c.new.self._objective == pp(c.old.self._objective, *pp_flags(c, zb(c.old.is_function_input_normalized)))))
+        return out
+
+    def _untouched(self, c):
+        j = z3.Int("j!pu")
+        out = []
+        for n, (C0, C1, _) in enumerate(collections_of(c)):
+            L0, L1 = C0._functions, C1._functions
+            out.append((f"collection{n}:untouched", z3.And(L1.n == L0.n, fa([j], z3.Implies(z3.And(0 <= j, j < L0.n), L1.elems[j] == L0.elems[j]), L1.elems[j]),
+                                                            C1.evaluate_jacobian == C0.evaluate_jacobian)))
+        if "_objective" in c.old.self.obj.fields:
+            out.append(("named-function-untouched", c.new.self._objective == c.old.self._objective))
+        return out
+
+    def ensures(self, c):
+        done = c.old.self._functions_are_preprocessed
+        out = [(f"first-time:{l}", z3.Implies(z3.Not(done), f)) for l, f in self._replaced(c)]
+        out += [(f"already-preprocessed:{l}", z3.Implies(done, f)) for l, f in self._untouched(c)]
+        out += [
+            ("preprocessed-flag-set", c.new.self._functions_are_preprocessed),
+            ("first-time:jacobian-of-new-iteration-observables",
+             z3.Implies(z3.Not(done), c.new.self._EvaluationProblem__new_iter_observables.evaluate_jacobian == zb(c.old.eval_obs_jac))),
+        ]
+        return out
+
+    def raise_ensures(self, c, exc):
+        # the only source is the final validation: every function has been replaced by then
+        return [("validation-error-after-the-replacement", z3.And(z3.Not(c.old.self._functions_are_preprocessed), c.new.self._functions_are_preprocessed))] + \
+               [(f"first-time:{l}", f) for l, f in self._replaced(c)]
+
+
+@register
+class PreprocessFunctionsEvaluationProblem(_PreprocessFunctions):
+    """EvaluationProblem: the collections are [observables, new_iter_observables], no named function."""
+
+    variant = "evaluation-problem"
+    self_schema = EP + "#ppf2"
+    modifies = ("self", "self._EvaluationProblem__observables", "self._EvaluationProblem__new_iter_observables")
+
+
+@register
+class PreprocessFunctionsOptimizationProblem(_PreprocessFunctions):
+    """Shape of an OptimizationProblem: [constraints, observables, new_iter_observables] and the named function `_objective`."""
+
+    variant = "optimization-problem"
+    self_schema = EP + "#ppf3"
+    modifies = ("self", "self.ghost_constraints", "self._EvaluationProblem__observables", "self._EvaluationProblem__new_iter_observables")
+
+
+# ============================================================================ lemmas linking the contracts to the property statement
+@register
+class NormalizeLemmas(Contract):
+    """From the postconditions of MDOLinearFunction.normalize (dense) to the property: for every normalised point xn and every output row,
+        result.func(xn) = sum_k RA[k] xn[k] + Rb = sum_k A[k] (s[k] xn[k] + shift[k]) + b = self.func(U(xn))
+    with RA[k] = A[k] s[k] ('result:coefficients-scaled') and Rb = sum_k A[k] shift[k] + b ('result:offset-from-the-original-coefficients').
+    Induction on the prefix sums (base + step), then the combination; U(xn)[k] = s[k] xn[k] + shift[k] is C02's unnormalize_vect and
+    RA = A diag(s) is C02's normalize_grad applied to the rows of A (per component, real arithmetic)."""
+
+    targets = ()
+    prop = ("C01",)
+    lemma = True
+
+    def lemmas(self):
+        RS = z3.ArraySort(z3.IntSort(), z3.RealSort())
+        a, s, h, x, R, S_, U = (z3.Const(n, RS) for n in ("a", "s", "h", "x", "R", "S", "U"))
+        k, n = z3.Ints("k n")
+        b = z3.Real("b")
+        t = z3.Int("t!nl")
+        ps0 = z3.Const("a!ps", RS)
+        kk = z3.Int("k!ps")
+        ax = [z3.ForAll([ps0], psum(ps0, 0) == 0), z3.ForAll([ps0, kk], z3.Implies(kk >= 0, psum(ps0, kk + 1) == psum(ps0, kk) + ps0[kk]), patterns=[psum(ps0, kk + 1)])]
+        defs = [z3.ForAll([t], R[t] == a[t] * s[t] * x[t], patterns=[R[t]]), z3.ForAll([t], S_[t] == a[t] * h[t], patterns=[S_[t]]),
+                z3.ForAll([t], U[t] == a[t] * (s[t] * x[t] + h[t]), patterns=[U[t]])]
+        P = lambda j: psum(R, j) + psum(S_, j) == psum(U, j)  # noqa: E731,N806
+        lb, ub, xv, g = z3.Reals("lb ub xv g")
+        pol = z3.Bool("pol")
+        sc, sf = z3.If(pol, ub - lb, z3.RealVal(1)), z3.If(pol, lb, z3.RealVal(0))
+        return [
+            ("func-equivalence-base", z3.Implies(z3.And(*ax), P(z3.IntVal(0)))),
+            ("func-equivalence-step", z3.Implies(z3.And(*ax, *defs, k >= 0, P(k)), P(k + 1))),
+            ("func-equivalence", z3.Implies(z3.And(n >= 0, z3.ForAll([k], z3.Implies(k >= 0, P(k)), patterns=[psum(U, k)])),
+                                            psum(R, n) + (psum(S_, n) + b) == psum(U, n) + b)),
+            ("unnormalize-is-scale-and-shift", z3.If(pol, xv * (ub - lb) + lb, xv) == sc * xv + sf),
+            ("scaled-coefficient-is-the-normalized-gradient", g * sc == z3.If(pol, g * (ub - lb), g)),
+        ]
+
+
+@register
+class CompositionLemmas(Contract):
+    """What an evaluation sequence computes (ProblemFunction._compute_output / _compute_jacobian: left fold, contracts in c01_c03_evaluation):
+    the sequences composed by _preprocess_function are F o R o U, NG o dense o J o R o U, ... (ground instances of the fold definition)."""
+
+    targets = ()
+    prop = ("C01",)
+    lemma = True
+
+    def lemmas(self):
+        from contracts.c01_c03_evaluation import fold
+
+        s = z3.Const("s", z3.ArraySort(z3.IntSort(), ValS))
+        x = z3.Const("x", ValS)
+        out = []
+        unfold = [fold(s, 0, x) == x]
+        comp = x
+        for n in range(1, 6):
+            unfold.append(fold(s, n, x) == G.apply1(s[n - 1], fold(s, n - 1, x)))
+            comp = G.apply1(s[n - 1], comp)
+            out.append((f"sequence-of-{n}-is-the-composition", z3.Implies(z3.And(*unfold), fold(s, n, x) == comp)))
+        return out
+
+
+# ============================================================================ what a linear function computes (the F and J of a linear function)
+from pyvc.npmodel import ArrObj  # noqa: E402
+
+
+class _LinearMap(Contract):
+    prop = ("C01",)
+    numpy = "precise"
+    c01 = True
+    frame_arrays = True
+    self_schema = LIN + "#dense"
+
+
+@register
+class LinearFuncToWrap(_LinearMap):
+    """func(x) = A x + b (a scalar when there is one output): row-wise prefix sums."""
+
+    targets = (LIN + "._func_to_wrap",)
+    variant = "dense"
+    params = {"x_vect": F1}
+    raises = {"ValueError": lambda c: ln(c.old.x_vect) != ln(c.old.self._coefficients, 1)}
+
+    def requires(self, c):
+        return [("offset-length", ln(c.old.self._value_at_zero) == ln(c.old.self._coefficients, 0))]
+
+    def ensures(self, c):
+        s, x = c.old.self, c.old.x_vect
+        A0, b0 = s._coefficients, s._value_at_zero
+        m, n = ln(A0, 0), ln(A0, 1)
+        i, k = z3.Int("i!fw"), z3.Int("k!fw")
+        row = lambda r: psum(z3.Lambda([k], el(A0, r, k) * el(x, k)), n) + el(b0, r)  # noqa: E731
+        v = c.result_value
+        if isinstance(v, SV):
+            return [("scalar-iff-one-output", m == 1), ("value", v.term == row(z3.IntVal(0)))]
+        if isinstance(v, Ref) and isinstance(c._new_heap.get(v.id), ArrObj) and c._new_heap[v.id].rank == 1:
+            R = c.result
+            return [("vector-unless-one-output", z3.And(m != 1, ln(R) == m)),
+                    ("value", fa([i], z3.Implies(z3.And(0 <= i, i < m), el(R, i) == row(i)), el(R, i)))]
+        return [("result-is-a-scalar-or-a-vector", z3.BoolVal(False))]
+
+
+@register
+class LinearJacToWrap(_LinearMap):
+    """jac(x) = the coefficient matrix A itself (its only row when there is one output), whatever x."""
+
+    targets = (LIN + "._jac_to_wrap",)
+    variant = "dense"
+    params = {"_": TNd}
+
+    def ensures(self, c):
+        A0 = c.old.self._coefficients
+        m, n = ln(A0, 0), ln(A0, 1)
+        j = z3.Int("j!jw")
+        v = c.result_value
+        if isinstance(v, Ref) and v.id == A0.ref.id:
+            return [("matrix-unless-one-output", m != 1)]
+        if isinstance(v, Ref) and isinstance(c._new_heap.get(v.id), ArrObj) and c._new_heap[v.id].rank == 1:
+            R = c.result
+            return [("row-iff-one-output", z3.And(m == 1, ln(R) == n)),
+                    ("value", fa([j], z3.Implies(z3.And(0 <= j, j < n), el(R, j) == el(A0, 0, j)), el(R, j)))]
+        return [("result-is-the-coefficients", z3.BoolVal(False))]
